@@ -144,3 +144,27 @@ package resp
 //@   assert before reset: csStep == 1
 //@   ghostset after reset: csStep = 2
 //@   top-ensures csStep == 2
+
+// ---- C04: the hijacked chunked body writer ----
+// Write: the header block goes out before the first chunk and only once (chunked framing announced first); a data
+// chunk is never empty - an empty chunk is the end-of-body mark and belongs to Finalize alone.
+//@ ghost var cwHdr int
+//@ ghost var cwCL int
+//@ func chunkedBodyWriter.Write(c, p) n, err
+//@   props C04
+//@   abstract
+//@   noinline
+//@   modifies cwHdr, cwCL
+//@   ghostset-at-entry cwHdr = 0
+//@   ghostset-at-entry cwCL = -5
+//@   ghostset after ResponseHeader.SetContentLength: cwCL = arg1
+//@   assert before WriteHeader: cwHdr == 0 && cwCL == -1
+//@   ghostset after WriteHeader: cwHdr = 1
+//@   assert before WriteChunk: len(arg1) > 0 && sameSlice(arg1, p)
+//@   replay-import bufio
+//@   replay-import net/http
+//@   replay-import io
+//@   replay-import github.com/cloudwego/hertz/pkg/protocol
+//@   replay-import github.com/cloudwego/hertz/pkg/common/test/mock
+//@   replay-go r := protocol.AcquireResponse(); conn := mock.NewConn(""); cw := NewChunkedBodyWriter(r, conn); cw.Write([]byte("abc")); cw.Write([]byte{}); cw.Write([]byte("def")); cw.Finalize(); cw.Flush(); out, _ := conn.WriterRecorder().ReadBinary(conn.WriterRecorder().WroteLen()); got, err := http.ReadResponse(bufio.NewReader(bytes.NewReader(out)), nil); if err != nil { fmt.Printf("VCGO-VIOLATED writes abc, empty, def through the chunked writer give an unreadable response: %v (%q)\n", err, out); return }; body, err := io.ReadAll(got.Body); if string(body) != "abcdef" || err != nil { fmt.Printf("VCGO-VIOLATED writes abc, empty, def through the chunked writer are decoded by net/http as body %q, err %v (wire %q)\n", body, err, out) }
+
